@@ -45,11 +45,13 @@ def kernel_leg(r, tier):
     r.stubs += ["Resolver.resolve_implicit_root_scopes: computed from the same rows with its documented meaning (BLOCK_KIND rows whose "
                 "scope_id is 0) instead of through the pandas table", "loader.is_import_stmt: False (imports are outside the kernel)"]
     kinds = [0, 2] if tier == "quick" else [0, 1, 2, 3]
-    slices = [dict(scopes=3, kinds=kinds, fix={"k1": [a], "k2": [b], "cur": [c]}) for a in kinds for b in kinds for c in range(4)]
+    # quick: only the first scope may itself be named like the symbol; thorough: any of the three
+    slices = [dict(scopes=3, kinds=kinds, named_scopes=1 if tier == "quick" else 3, fix={"k1": [a], "k2": [b], "cur": [c]})
+              for a in kinds for b in kinds for c in range(4)]
     b = xrun.Batch(r)
     b.add("kernel: resolution == nearest declaring scope of the lexical chain, on every 3-scope forest", MK, "check_resolution",
           slices=slices, pct=600 if tier == "quick" else 3000, ppt=30, twin="check_resolution_reach",
-          twin_slice=dict(scopes=3, kinds=kinds, fix={"k1": [0], "k2": [0], "cur": [2]}),
+          twin_slice=dict(scopes=3, kinds=kinds, named_scopes=1 if tier == "quick" else 3, fix={"k1": [0], "k2": [0], "cur": [2]}),
           bounds={"scopes": 3, "kinds": [["method", "class", "block", "for"][k] for k in kinds], "names": "x (declared) / others",
                   "current scope": "module or any scope", "global flag": "both"})
     b.execute()
